@@ -76,6 +76,15 @@ impl Property for C07 {
                     }
                 }
             }),
+            Family::new("sem-histories", ctx.tier.pick(40, 1000), |_c, rng, emit| {
+                for _ in 0..25 {
+                    let n = 1 + rng.below(8);
+                    let ops: Vec<_> = (0..n).map(|_| json!([rng.weighted(&[5, 3, 2, 2]), rng.below(3), rng.below(7)])).collect();
+                    if !emit(json!({"kind": "sem-hist", "seed": rng.next() >> 16, "n": 2 + rng.below(6), "ops": ops})) {
+                        return;
+                    }
+                }
+            }),
             Family::new("random-histories", ctx.tier.pick(48, 1500), |_c, rng, emit| {
                 for _ in 0..40 {
                     let n = 1 + rng.below(12);
@@ -89,6 +98,9 @@ impl Property for C07 {
     }
     fn run_case(&self, _ctx: &Ctx, case: &Case) -> Verdict {
         let Some(ops) = case["ops"].as_array() else { return Verdict::Skip("malformed-case") };
+        if case["kind"] == "sem-hist" {
+            return sem_history(case, ops);
+        }
         let mut files = initial_files();
         let mut live = Workspace::new(&files, "f0.td");
         let mut root = "f0.td".to_string();
@@ -176,6 +188,88 @@ impl Property for C07 {
         Verdict::pass(edits >= 2 && structural && changed)
     }
     fn shrink_keep(&self) -> &'static [&'static str] {
-        &["kind"]
+        &["kind", "seed"]
     }
+}
+
+/// The same differential over the files of a generated (SEM) program: richer symbol tables than the
+/// fixed variants. Variant v of file k: 0 original, 1 a prefix, 2 character noise, 3 the same-named
+/// file of another generated program, 4 empty, 5 CRLF, 6 original plus a use of an undeclared class.
+fn sem_history(case: &Case, ops: &[serde_json::Value]) -> Verdict {
+    use crate::gen::{mutate, sem};
+    let (Some(seed), Some(n)) = (case["seed"].as_u64(), case["n"].as_u64()) else { return Verdict::Skip("malformed-case") };
+    let p = sem::program_from(seed, (n as usize).min(12), sem::Opts::Clean);
+    let q = sem::program_from(seed.wrapping_add(1), (n as usize).min(12), sem::Opts::Clean);
+    let nfiles = p.files.len();
+    let variant = |k: usize, v: usize| -> String {
+        let orig = &p.files[k].1;
+        let mut rng = Rng::new(seed ^ ((k as u64) << 8) ^ v as u64);
+        match v % 7 {
+            0 => orig.clone(),
+            1 => mutate::prefix_at(orig, &mut rng),
+            2 => mutate::char_noise(orig, &mut rng, 3),
+            3 => q.files.get(k).map(|f| f.1.clone()).unwrap_or_else(|| "class Other;\n".to_string()),
+            4 => String::new(),
+            5 => mutate::to_crlf(orig),
+            _ => format!("{orig}\ndef extra_use : NoSuchClass;\n"),
+        }
+    };
+    let mut files: Vec<(String, String)> = p.files.clone();
+    let mut live = Workspace::new(&files, &files[0].0);
+    let mut root = files[0].0.clone();
+    let mut root_text = files[0].1.clone();
+    let mut prev: Option<serde_json::Value> = None;
+    let mut changed = false;
+    let mut edits = 0;
+    for (step, op) in ops.iter().enumerate() {
+        let (Some(kind), Some(f), Some(v)) = (op[0].as_u64(), op[1].as_u64(), op[2].as_u64()) else { return Verdict::Skip("malformed-case") };
+        let k = f as usize % nfiles;
+        let name = files[k].0.clone();
+        match kind % 4 {
+            0 => {
+                let t = variant(k, v as usize);
+                edits += (files[k].1 != t) as usize;
+                files[k].1 = t.clone();
+                live.edit_as_root(&name, &t);
+                root_text = t;
+                root = name.clone();
+            }
+            1 => {
+                let t = variant(k, v as usize);
+                edits += (files[k].1 != t) as usize;
+                files[k].1 = t.clone();
+                live.edit_keep_root(&name, &t);
+                if root == name {
+                    root_text = t;
+                }
+            }
+            2 => {
+                live.switch_root(&name);
+                root_text = files[k].1.clone();
+                root = name.clone();
+            }
+            _ => {
+                if name == root {
+                    continue;
+                }
+                let t = variant(k, v as usize);
+                files[k].1 = t.clone();
+                live.fs_only_edit(&name, &t);
+                continue;
+            }
+        }
+        let fresh = Workspace::new_with_root_text(&files, &root, &root_text);
+        let d_live = wsq::dump(&live, &live.analysis());
+        let d_fresh = wsq::dump(&fresh, &fresh.analysis());
+        if d_live != d_fresh {
+            let diff = wsq::first_diff(&d_live, &d_fresh, &mut String::new()).unwrap_or_default();
+            let what = diff.split(':').next().unwrap_or("").rsplit('/').next().unwrap_or("").chars().filter(|c| c.is_alphabetic()).collect::<String>();
+            return Verdict::Fail(Failure::new("C07.differs-from-fresh", format!("C07.differs-from-fresh:{what}"), format!("generated program (seed {seed}, n {n}), after step {step} (op {op}): long-lived vs fresh differ at {diff}")));
+        }
+        if let Some(pv) = &prev {
+            changed |= *pv != d_live;
+        }
+        prev = Some(d_live);
+    }
+    Verdict::pass(edits >= 2 && changed && nfiles >= 2)
 }
